@@ -422,6 +422,7 @@ SPECS["C16"] = dict(
         # track misc2 (claim-audit gap 17): persistence of removals, sortedness from any state, whole-item run level
         "Woodpile.Props.C16.reference_sorted_from",
         "Woodpile.Props.C16.reachable_sorted",
+        "Woodpile.Props.C16.present_key_found_impl",
         "Woodpile.Props.C16.gone_stays_gone",
         "Woodpile.Props.C16.removed_or_popped_vanishes",
         "Woodpile.Props.C16.gone_stays_gone_increasing",
